@@ -574,19 +574,25 @@ theorem ext_streamRest (ctx : Ctx) (c : Nat) (w : World) : Ext w (streamRest ctx
   · exact h1.trans (ext_call _ _ _ _)
   · exact h1
 
+theorem ext_closeGivenUp (c : Nat) (w : World) : Ext w (closeGivenUp c w) := by
+  unfold closeGivenUp
+  split
+  · exact ext_close _ _
+  · exact Ext.refl _
+
 theorem ext_writeResponse (r : Resp) : Ext s.w (writeResponse ctx r s).1.w := by
   have e : (writeResponse ctx r s).1 =
       (fun s1 : St => ({ (recycleContinueConn ctx s1.continueConn s1) with continueConn := none } : St))
       (match s.continueConn with
-       | some c => if r == .res || r == .ok then { s with w := streamRest ctx c s.w } else s
+       | some c => if r == .res || r == .ok then { s with w := closeGivenUp c (streamRest ctx c s.w) } else s
        | none => s) := rfl
   rw [e]
   have h1 : Ext s.w (match s.continueConn with
-       | some c => if r == Resp.res || r == Resp.ok then { s with w := streamRest ctx c s.w } else s
+       | some c => if r == Resp.res || r == Resp.ok then { s with w := closeGivenUp c (streamRest ctx c s.w) } else s
        | none => s).w := by
     split
     · split
-      · exact ext_streamRest _ _ _
+      · exact (ext_streamRest _ _ _).trans (ext_closeGivenUp _ _)
       · exact Ext.refl _
     · exact Ext.refl _
   exact h1.trans (ext_recycleContinueConn _)
